@@ -155,6 +155,11 @@ def column_classes(rng, nprng, thresholds):
     yield 'nan-share-%s75pct' % ('exact-' if k == int(n * 0.75) else 'near-'), col
     yield 'overflowing-literals', [rng.choice(['1e999', '-1e400', '1e999', '5', '7', '0', '12.5']) for _ in range(n)]
     yield 'quarter-offsets-from-threshold', [repr(th + rng.choice([0.25, 6.25, 20.25, 2.25, 0.0625, 1.5625, 0.5625, 12.25, 1.0, 3.0])) for _ in range(n)]
+    # shares that sit just below a threshold but round to it at two decimals (35/44 = 0.7955, 39/49 = 0.7959, 159/200 = 0.795; NaN 38/51 = 0.7451)
+    nn, kk = rng.choice([(44, 35), (49, 39), (200, 159), (88, 70)])
+    yield 'majority-just-below-80pct-fine-grid', [repr(3.0)] * kk + [repr(float(10 + i)) for i in range(nn - kk)]
+    nn, kk = rng.choice([(51, 38), (102, 76), (200, 149)])
+    yield 'nan-share-just-below-75pct-fine-grid', [repr(float(-2 - i % 3)) for i in range(kk)] + [repr(float(1 + i)) for i in range(nn - kk)]
     yield 'majority-80pct-of-many', [repr(3.0)] * int(n * 0.8) + [repr(float(10 + i)) for i in range(n - int(n * 0.8))]
     yield 'majority-just-below-80pct', [repr(3.0)] * (int(n * 0.8) - 1) + [repr(float(10 + i)) for i in range(n - int(n * 0.8) + 1)]
 
@@ -260,6 +265,7 @@ def shard_columns(sh, part, parts):
     thresholds = [1, 2, 4, 8, 16, 32, 64, 96, 0.01, 0.02, 0.04, 0.08, 0.16, 0.32, 0.64, 0.96]
     reps = 6 if sh.tier == 'quick' else 150
     presets = ['fw-transformers', 'default', 'minimal', 'minimal,default', 'default,fw-transformers']
+    shared_numeric = {'x'}
     t = 0
     for rep in range(reps):
         classes = list(column_classes(rng, nprng, thresholds))
@@ -273,8 +279,12 @@ def shard_columns(sh, part, parts):
             df = pd.DataFrame({'x': cells, 'other': other, 'label': ['a'] * len(cells)})
             snapshot = df.copy(deep=True)
             if t % 4 == 2:
-                # the path the pipeline takes: core_ranking.enrich_with_transformations(frame, numeric columns, logger, args)
-                ok, out = sh.call('emitted-cell=named-formula', 'enrich_with_transformations', cr.enrich_with_transformations, df, {'x'}, pipe.ListLogger(), pipe.make_args(transformers=preset))
+                # the path the pipeline takes: core_ranking.enrich_with_transformations(frame, numeric columns, logger, args); the pipeline hands
+                # the SAME set of numeric column names to every batch, so it must come back unchanged
+                ok, out = sh.call('emitted-cell=named-formula', 'enrich_with_transformations', cr.enrich_with_transformations, df, shared_numeric, pipe.ListLogger(), pipe.make_args(transformers=preset))
+                sh.check('emitted-only-if-rule', shared_numeric == {'x'}, 'numeric-column-set-of-the-caller-modified', lambda: {'set_now': sorted(shared_numeric), 'after_class': cls})
+                shared_numeric.clear()
+                shared_numeric.add('x')
                 sh.classes['via enrich_with_transformations'] += 1
                 if not ok:
                     continue
